@@ -23,8 +23,10 @@
                                     part of a header line.  The only generated sub-terms that are written down are two
                                     one-expression `have`s in the sequence-line case (`hkeep`: the translation of
                                     `line[:-line_end_bytes] if line[-1] == 10 else line`, `hr0`: of `if not residues_per_line`),
-                                    the shape `if _ then _ else .ok (some regs)` in `ite_closeReg`, and the order of the 13
-                                    loop variables in `toSrc`.
+                                    the shape `if _ then _ else .ok (some regs)` in `ite_closeReg`, and the order of the loop
+                                    variables: of the 13 of the main loop in `toSrc` / `toSrc_none` / `toSrc_some`, of the
+                                    two inner loops in `absReg` / `absRow` (nowhere else; the joins after an `if` are
+                                    projected by `simp`).
 -/
 import AgpTpf.Gen.Imp
 import AgpTpf.Model.Fasta
@@ -78,23 +80,41 @@ theorem forIn_abs {α σ τ ρ : Type} (abs : τ → σ) (step : τ → α → R
 
 /-! ### the two views of the indexer's state -/
 
-/-- the source's 13 loop variables `(name, seq_length, residues_per_line, region_start, region_end, seq_regions, file_offset,
-    line_end_bytes, idx_dict, seq_buffer, asm.scaffolds, nextOid, fh.tell())` -/
-abbrev SrcState := Option Str × Option Int × Option Int × Option Int × Option Int × Option (List (Int × Int)) × Option Int ×
-  Option Int × List (Str × FastaInfo) × PyRt.BytesIO × List Scaffold × Nat × Int
+/-- the source's 13 loop variables, in the translator's canonical order (sorted by Python variable name, the synthetic
+    `fh.tell()` last): `(asm.scaffolds, file_offset, idx_dict, line_end_bytes, name, nextOid, region_end, region_start,
+    residues_per_line, seq_buffer, seq_length, seq_regions, fh.tell())` -/
+abbrev SrcState := List Scaffold × Option Int × List (Str × FastaInfo) × Option Int × Option Str × Nat × Option Int × Option Int ×
+  Option Int × PyRt.BytesIO × Option Int × Option (List (Int × Int)) × Int
 
 /-- the source's variables, from the model state: before the first header everything the Python initialises with `None` is
     `None` (except `residues_per_line`, which a header-less unterminated line sets); after it everything is set -/
 def toSrc (st : IdxState) : SrcState :=
   match st.name with
-  | some n => (some n, some st.seqLength, st.rpl, some st.regionStart, st.regionEnd, some st.seqRegions, some st.fileOffset,
-      some st.lineEndBytes, st.idx, { data := st.buffer, pos := st.buffer.length }, st.scaffolds, st.nextOid, st.pos)
-  | none => (none, none, st.rpl, none, none, none, none, none, st.idx, { data := st.buffer, pos := st.buffer.length },
-      st.scaffolds, st.nextOid, st.pos)
+  | some n => (st.scaffolds, some st.fileOffset, st.idx, some st.lineEndBytes, some n, st.nextOid, st.regionEnd,
+      some st.regionStart, st.rpl, { data := st.buffer, pos := st.buffer.length }, some st.seqLength, some st.seqRegions, st.pos)
+  | none => (st.scaffolds, none, st.idx, none, none, st.nextOid, none, none, st.rpl,
+      { data := st.buffer, pos := st.buffer.length }, none, none, st.pos)
+
+/-- `toSrc` before the first header (the only other place that spells out the order of the 13 variables) -/
+theorem toSrc_none {st : IdxState} (hn : st.name = none) :
+    toSrc st = (st.scaffolds, none, st.idx, none, none, st.nextOid, none, none, st.rpl,
+      { data := st.buffer, pos := st.buffer.length }, none, none, st.pos) := by
+  simp only [toSrc, hn]
+
+/-- `toSrc` inside a record -/
+theorem toSrc_some {st : IdxState} {n : Str} {r : Int} (hn : st.name = some n) (hr : st.rpl = some r) :
+    toSrc st = (st.scaffolds, some st.fileOffset, st.idx, some st.lineEndBytes, some n, st.nextOid, st.regionEnd,
+      some st.regionStart, some r, { data := st.buffer, pos := st.buffer.length }, some st.seqLength, some st.seqRegions,
+      st.pos) := by
+  simp only [toSrc, hn, hr]
 
 /-- the region variables of `process_seq_buffer`, in the order the translated loop carries them -/
 def absReg (t : Int × Option Int × List (Int × Int)) : Option Int × Option Int × Option (List (Int × Int)) :=
   (t.2.1, some t.1, some t.2.2)
+
+/-- the variables of `store_info`'s row loop: `rowStep` keeps them as `(scffld, nextOid, prev)`, the translated loop carries
+    them in the canonical order `(nextOid, prev, scffld)` -/
+def absRow (t : Scaffold × Nat × (Int × Int)) : Nat × (Int × Int) × Scaffold := (t.2.1, t.2.2, t.1)
 
 /-! ### small run-time facts -/
 
@@ -726,7 +746,7 @@ macro "row_body" hcl:term : tactic => `(tactic| (
   intro region hmem t
   obtain ⟨sc, oid, prev⟩ := t
   have hlt := $hcl region hmem
-  simp only [id, rowStep, mkFragment_ok _ _ _ _ hlt, ok_bind, ite_ok_bind, gapType_eq]
+  simp only [absRow, rowStep, mkFragment_ok _ _ _ _ hlt, ok_bind, ite_ok_bind, gapType_eq]
   by_cases hg : region.fst = prev.snd <;> simp [hg]))
 
 /-- `name = line[1:].split()[0].decode()` … `line_end_bytes = 2 if line[-2] == 13 else 1`, against `headerPart` -/
@@ -815,9 +835,7 @@ theorem index_fasta_file_imp_eq (bs : Int) (lines : List Bytes) (h0 : preHeaderO
         rw [indexLine_header]
         cases hn : st.name with
         | none =>
-          have hsrc : toSrc st = (none, none, st.rpl, none, none, none, none, none, st.idx,
-              { data := st.buffer, pos := st.buffer.length }, st.scaffolds, st.nextOid, st.pos) := by
-            simp only [toSrc, hn]
+          have hsrc := toSrc_none hn
           rw [hsrc]
           simp only [pyGet_zero_cons, map_ok, ok_bind, h62, if_true, Option.isSome_none, Bool.false_eq_true, if_false,
             slice_one_none_cons, pyGet_split_zero]
@@ -828,10 +846,7 @@ theorem index_fasta_file_imp_eq (bs : Int) (lines : List Bytes) (h0 : preHeaderO
             cases n with
             | nil => exact absurd rfl (hI.nameNe _ hn)
             | cons _ _ => rfl
-          have hsrc : toSrc st = (some n, some st.seqLength, some r, some st.regionStart, st.regionEnd, some st.seqRegions,
-              some st.fileOffset, some st.lineEndBytes, st.idx, { data := st.buffer, pos := st.buffer.length }, st.scaffolds,
-              st.nextOid, st.pos) := by
-            simp only [toSrc, hn, hr]
+          have hsrc := toSrc_some hn hr
           rw [hsrc, storeInfo_eq]
           simp only [pyGet_zero_cons, map_ok, ok_bind, h62, if_true, Option.isSome_some, slice_one_none_cons,
             pyGet_split_zero, hne, Bool.not_false, hr, Option.getD_some]
@@ -853,7 +868,7 @@ theorem index_fasta_file_imp_eq (bs : Int) (lines : List Bytes) (h0 : preHeaderO
           · simp only [hdup, if_true, ok_bind, error_bind, map_error]
           · simp only [hdup, Bool.false_eq_true, if_false, ok_bind, needIter_some]
             -- for region in seq_regions
-            rw [forIn_abs_pure id (rowStep n) _ _ ({ name := n }, st.nextOid, 0, 0) _ ?hs ?hbody]
+            rw [forIn_abs_pure absRow (rowStep n) _ _ ({ name := n }, st.nextOid, 0, 0) _ ?hs ?hbody]
             case hs => rfl
             case hbody => row_body hcl
             obtain ⟨h1, h2, h3⟩ := foldl_rowStep n (closeReg (rs', re', regs')) { name := n } st.nextOid (0, 0)
@@ -861,7 +876,7 @@ theorem index_fasta_file_imp_eq (bs : Int) (lines : List Bytes) (h0 : preHeaderO
             obtain ⟨sc, oid', prev'⟩ := u
             simp only [List.nil_append] at h1 h2 h3
             subst h1 h2
-            simp only [ok_bind, id, ite_ok_bind, h3, dSet_of_none _ _ _ (by simpa using hdup), seek_truncate, gapType_eq,
+            simp only [ok_bind, absRow, ite_ok_bind, h3, dSet_of_none _ _ _ (by simpa using hdup), seek_truncate, gapType_eq,
               Int.ofNat_eq_natCast]
             header_tail tl
       · -- a sequence line
@@ -870,9 +885,7 @@ theorem index_fasta_file_imp_eq (bs : Int) (lines : List Bytes) (h0 : preHeaderO
         cases hn : st.name with
         | none =>
           obtain ⟨hA, hB⟩ := hsafe hn
-          have hsrc : toSrc st = (none, none, st.rpl, none, none, none, none, none, st.idx,
-              { data := st.buffer, pos := st.buffer.length }, st.scaffolds, st.nextOid, st.pos) := by
-            simp only [toSrc, hn]
+          have hsrc := toSrc_none hn
           rw [hsrc]
           by_cases hl : (b0 :: tl).getLast? = some 10
           · have hx : x = 10 := by rw [hx1] at hl; simpa using hl
@@ -905,10 +918,7 @@ theorem index_fasta_file_imp_eq (bs : Int) (lines : List Bytes) (h0 : preHeaderO
         | some n =>
           obtain ⟨r, hr⟩ := hI.rplSome n hn
           have hleb := hI.lebPos n hn
-          have hsrc : toSrc st = (some n, some st.seqLength, some r, some st.regionStart, st.regionEnd, some st.seqRegions,
-              some st.fileOffset, some st.lineEndBytes, st.idx, { data := st.buffer, pos := st.buffer.length }, st.scaffolds,
-              st.nextOid, st.pos) := by
-            simp only [toSrc, hn, hr]
+          have hsrc := toSrc_some hn hr
           rw [hsrc, indexLine_residue bs st b0 tl r n hb hr hn]
           have hkeep : (if decide (Int.ofNat x = 10) = true
                 then (Except.ok (slice (b0 :: tl) none (some (-st.lineEndBytes))) : R Bytes) else Except.ok (b0 :: tl))
@@ -946,9 +956,7 @@ theorem index_fasta_file_imp_eq (bs : Int) (lines : List Bytes) (h0 : preHeaderO
     simp only [map_ok, ok_bind]
     cases hn : st.name with
     | none =>
-      have hsrc : toSrc st = (none, none, st.rpl, none, none, none, none, none, st.idx,
-          { data := st.buffer, pos := st.buffer.length }, st.scaffolds, st.nextOid, st.pos) := by
-        simp only [toSrc, hn]
+      have hsrc := toSrc_none hn
       rw [hsrc]
       simp only [Option.isSome_none, Bool.false_eq_true, if_false, ok_bind]
       cases st.idx.isEmpty <;> rfl
@@ -958,10 +966,7 @@ theorem index_fasta_file_imp_eq (bs : Int) (lines : List Bytes) (h0 : preHeaderO
         cases n with
         | nil => exact absurd rfl (hI.nameNe _ hn)
         | cons _ _ => rfl
-      have hsrc : toSrc st = (some n, some st.seqLength, some r, some st.regionStart, st.regionEnd, some st.seqRegions,
-          some st.fileOffset, some st.lineEndBytes, st.idx, { data := st.buffer, pos := st.buffer.length }, st.scaffolds,
-          st.nextOid, st.pos) := by
-        simp only [toSrc, hn, hr]
+      have hsrc := toSrc_some hn hr
       rw [hsrc, storeInfo_eq]
       simp only [hne, Bool.not_false, if_true, Option.isSome_some, hn, Option.getD_some]
       rw [forIn_abs_pure absReg (mergeRun st.seqLength) _ _ (st.regionStart, st.regionEnd, st.seqRegions) _ ?hs ?hbody]
@@ -979,7 +984,7 @@ theorem index_fasta_file_imp_eq (bs : Int) (lines : List Bytes) (h0 : preHeaderO
       by_cases hdup : (dGet? st.idx n).isSome = true
       · simp only [hdup, if_true, ok_bind, error_bind, map_error]
       · simp only [hdup, Bool.false_eq_true, if_false, ok_bind, needIter_some]
-        rw [forIn_abs_pure id (rowStep n) _ _ ({ name := n }, st.nextOid, 0, 0) _ ?hs ?hbody]
+        rw [forIn_abs_pure absRow (rowStep n) _ _ ({ name := n }, st.nextOid, 0, 0) _ ?hs ?hbody]
         case hs => rfl
         case hbody => row_body hcl
         obtain ⟨h1, h2, h3⟩ := foldl_rowStep n (closeReg (rs', re', regs')) { name := n } st.nextOid (0, 0)
@@ -987,7 +992,7 @@ theorem index_fasta_file_imp_eq (bs : Int) (lines : List Bytes) (h0 : preHeaderO
         obtain ⟨sc, oid', prev'⟩ := u
         simp only [List.nil_append] at h1 h2 h3
         subst h1 h2
-        simp only [ok_bind, id, ite_ok_bind, h3, dSet_of_none _ _ _ (by simpa using hdup), gapType_eq,
+        simp only [ok_bind, absRow, ite_ok_bind, h3, dSet_of_none _ _ _ (by simpa using hdup), gapType_eq,
           Int.ofNat_eq_natCast, stored, ite_scaffold, isEmpty_snoc, Bool.not_false, if_true, Bool.false_eq_true, if_false,
           map_ok, hn, hr, Option.getD_some]
 
